@@ -1,7 +1,7 @@
 (** C13 — macros, repetitions and conditional alternatives expand by substitution; distinct
     instantiations never interfere. *)
 From Coq Require Import List String.
-From LV Require Import Norm.Macro Norm.MacroProps.
+From LV Require Import Norm.Macro Norm.MacroProps Norm.MacroClosed.
 Import ListNotations.
 
 (* the expansion cache is keyed by the canonical form: two uses (macro uses, groups, repetitions,
@@ -37,3 +37,16 @@ Theorem C13_question_is_option : forall (T V : Type) (D : list T -> V -> Prop) w
   opt_der T V D w o <-> match o with Some v => D w v | None => w = [] end.
 Proof. exact opt_der_spec. Qed.
 Print Assumptions C13_question_is_option.
+
+(** the worklist leaves nothing unexpanded and nothing undefined: when the expansion succeeds, every
+    symbol of every resulting definition is flat (no macro use, group or repetition is left; only
+    <..> selections around flat symbols) and every created nonterminal it mentions is defined by one
+    of the resulting definitions -- for any macro definitions and user productions that are source
+    text, any regex oracle and any recursion limit *)
+Theorem C13_expansion_is_closed : forall re_match defs,
+  (forall n d, lookup n defs = Some d -> forall c ss, In (c, ss) (m_alts d) -> Gs ss = []) ->
+  forall limit user items,
+  (forall u alt, In u user -> In alt (snd u) -> Gs alt = []) ->
+  expand re_match defs limit user = EOk items -> Forall (closed (keys items)) items.
+Proof. exact expand_closed. Qed.
+Print Assumptions C13_expansion_is_closed.
